@@ -117,7 +117,10 @@ def writer_internals_missing():
     with an 'encoding' key and a str `_prev_section`, private section helpers present), else the reason the steps
     are skipped (the public-API obligations still run)"""
     import io
+    import os
     from pydiffx.writer import DiffXWriter
+    if os.environ.get('SX_FORCE_SKIP_STEPS'):
+        return 'SX_FORCE_SKIP_STEPS set (experiment: how much do the public-API obligations catch alone?)'
     for a in ('_new_container_section', '_new_content_section'):
         if not hasattr(DiffXWriter, a):
             return 'DiffXWriter.%s not found in the current source' % a
